@@ -28,18 +28,9 @@ theorem fftconv_out_len_is_model (N : Nat) (a b : List Int) :
 theorem ifft_len_is_model (nsamps nbins : Nat) :
     (ifftExplicitLen nsamps nbins).getD (Conv.irfftDefaultLen nbins) = Conv.ifftLen nbins nsamps := by
   unfold ifftExplicitLen Conv.ifftLen Conv.irfftDefaultLen
-  by_cases h : (nsamps % 2 = 1 ∧ nsamps / 2 + 1 = nbins)
-  · rw [if_pos h, if_pos h.2]; rfl
-  · rw [if_neg h]
-    by_cases h2 : nsamps / 2 + 1 = nbins
-    · rw [if_pos h2]
-      have : nsamps % 2 = 0 := by
-        have := Nat.mod_two_eq_zero_or_one nsamps
-        rcases this with e | e
-        · exact e
-        · exact absurd ⟨e, h2⟩ h
-      simp only [Option.getD_none]
-      omega
-    · rw [if_neg h2]; rfl
+  have := Nat.mod_two_eq_zero_or_one nsamps
+  repeat' split
+  all_goals simp_all
+  all_goals omega
 
 end SppModel.Tie
